@@ -471,6 +471,9 @@ func runProperty(prop, tier string, workers int) int {
 		samples = append(samples, map[string]interface{}{"note": "no witness sampled on this run"})
 	}
 	level := "model_checking"
+	if l, ok := propLevel[prop]; ok {
+		level = l
+	}
 	cov := map[string]interface{}{
 		"states": totalPaths, "transitions": totalInstrs, "traces_validated_against_impl": validated,
 		"samples": samples, "harnesses": sl, "functions_encoded": fl,
@@ -483,6 +486,9 @@ func runProperty(prop, tier string, workers int) int {
 	}
 	if exhaustive {
 		cov["exhaustive"] = true
+	}
+	if ex, ok := propExplanation[prop]; ok {
+		cov["explanation"] = ex
 	}
 	ev := map[string]interface{}{
 		"property_id": prop, "tier": tier, "seed": seedOf(), "level": level, "coverage": cov,
@@ -507,7 +513,33 @@ func firstLine(s string) string {
 	return s
 }
 
-var outsideClaim = map[string][]string{}
+var propLevel = map[string]string{"C17": "other"}
+
+var propExplanation = map[string]string{
+	"C17": "Relational check on a structural size measure, decided by bounded symbolic execution of the real builder: for symbolic key sets K (n<=3) and a concrete prefix P, an upper-bound measure of the proto3 size of the message built from K and from P+K differs by at most 24 bytes; for adversarial concrete families (n=64/256) the measure is <= 8n+256. The real serialized length is a fact about golang/protobuf and is asserted only on the natively replayed witnesses. The linear bound for n up to 10^5 is outside the claim (at solver-reachable n the constant dominates).",
+}
+
+var outsideClaim = map[string][]string{
+	"C01": {"fully symbolic key sets with n>3 (quick) / n>4 (thorough)", "key sets at scale other than the listed skeletons", "~10^5 keys", "zero-width value equality"},
+	"C02": {"as C01"},
+	"C03": {"as C01; queries longer than the listed lq"},
+	"C04": {"fully symbolic tries with n>=2 outside the 6-letter alphabet", "stack depth beyond the listed skeletons"},
+	"C05": {"byte identity / proto.Size / re-marshal byte equality in general (asserted on native replays only): golang/protobuf's encoder is reflection+unsafe table code (A-PB)", "proto.Marshal/Unmarshal called on *SlimTrie"},
+	"C07": {"cuts inside real protobuf bodies are represented by opaque bodies", "version strings longer than the listed lv (except the 16-byte unterminated case in thorough)"},
+	"C08": {"n>3 symbolic keys (quick)", "run lengths other than the listed ones"},
+	"C09": {"as C01"},
+	"C10": {"as C01; queries longer than the listed lq"},
+	"C11": {"interleavings as such (replaced by the write-set sufficient condition)", "golang/protobuf Marshal (writes XXX_sizecache) is trusted"},
+	"C12": {"block sizes above 3 (blocks are models of <=3 symbolic offsets; 4 in thorough)"},
+	"C13": {"as C01"},
+	"C14": {"as C01"},
+	"C15": {"TypeEncoder byte layout (encoding/binary is reflection-driven; only a model could be checked)", "String16 lengths other than the listed ones"},
+	"C16": {"generic Array decoding rests on the encoding/binary layout model", "indexes other than 64*w+s for the listed words w", "n>3 indexes"},
+	"C17": {"the linear bound for large n", "exact proto.Size"},
+	"C18": {"as C01; legacy-loaded KeyCnt is checked under C06"},
+	"C19": {"exact rendered text", "short-node table sizes 4..10 (need >1000 keys)"},
+	"C20": {"legacy streams (covered under C06 when claimed)"},
+}
 
 func assumptionsFor(prop string) []string {
 	a := []string{"Go semantics as implemented by symgo (path-forking symbolic executor over go/ssa)", "go/ssa translation of the source", "z3 4.8.12 (unknowns retried on z3 5.1.0 / cvc5 1.0.3)", "intercepts listed in DESIGN.md §4 (see stubs_hit for those exercised)"}
